@@ -10,7 +10,7 @@ LEVEL = "exploration"
 RULE = ("real runs without impedance: GridSize in {48,64,96,128}, StepsPerTs 50..400, damping time chosen so that the per-step "
         "decrement e1 lies in the explicit scheme's stable range (e1/delta^2 < 0.35), derivative stencil 3/4, interpolation order "
         "3/4 (orders 1 and 2 are excluded: their numerical diffusion per step exceeds the physical diffusion, so 'within the "
-        "discretisation error of the grid' carries no information), initial zoom 0.5..2, FPType 3 (full; run length 5 configured "
+        "discretisation error of the grid' carries no information), initial zoom 0.1..2 (starts narrower than 0.5 only with FPType 3: below that the start is narrower than two cells), FPType 3 (full; run length 5 configured "
         "damping times, also judged after 2), 1 (damping only), 2 (diffusion only), 0 (neither).  non-trivial = |zoom-1| >= 0.25 "
         "and the run spans >= 3 synchrotron periods; distinct = case hash")
 ASSUMPTIONS = ["'converges' is decided after a run length fixed in units of the configured damping time (5), not asymptotically",
@@ -45,7 +45,8 @@ def run_case(case):
              VacuumGap=0.0, InitialDistZoom=z, InterpolationPoints=case["it"], derivation=case["deriv"], FPType=fpt,
              RenormalizeCharge=case["renorm"])
     h, msg = run_one(o, wd, "r.h5")
-    cls = ["fpt%d" % fpt, "d%d" % case["deriv"], "it%d" % case["it"], "n%d" % n]
+    cls = ["fpt%d" % fpt, "d%d" % case["deriv"], "it%d" % case["it"], "n%d" % n,
+           "zoom<0.3" if z < 0.3 else ("zoom<0.75" if z < 0.75 else ("zoom>1.25" if z > 1.25 else "zoom~1"))]
     if h is None:
         return Outcome(False, True, cls, msg, sig="c04:runfail")
     sq = h["/BunchLength/data"][:, 0].astype(np.float64)
@@ -128,8 +129,8 @@ def cases(draw, fast=True):
     lo = min(lo, hi)
     e1 = float(10 ** draw(st.floats(np.log10(lo), np.log10(hi))))
     fpt = draw(st.sampled_from([3, 3, 3, 3, 1, 2, 0]))
-    z = float(draw(st.sampled_from([0.5, 0.6, 0.7, 1.0, 1.4, 1.5, 2.0])) if draw(st.booleans()) else
-              gen.f32(draw(st.one_of(st.floats(0.5, 0.75), st.floats(1.25, 2.0)))))
+    z = float(draw(st.sampled_from([0.1, 0.2, 0.3, 0.5, 0.6, 0.7, 1.0, 1.4, 1.5, 2.0])) if draw(st.booleans()) else
+              gen.f32(draw(st.one_of(st.floats(0.1, 0.4), st.floats(0.4, 0.75), st.floats(1.25, 2.0)))))
     c = dict(n=n, steps=steps, e1=e1, zoom=z, fptype=fpt, it=draw(st.sampled_from([3, 4, 4])), deriv=draw(st.sampled_from([3, 4])),
              renorm=draw(st.sampled_from([-1, 0, 0, 50])), K=5.0)
     if fpt == 3 and draw(st.integers(0, 3)) == 0:
